@@ -221,4 +221,20 @@ PROPERTIES = {
         "assumptions": COMMON_ASSUMPTIONS + ["scheduler: context switches only at synchronisation operations (channel send/receive/close, mutex lock, WaitGroup wait/done, goroutine start/exit) and at the harness yield inside Persist.Store; context-bounded: at most `preempt` switches away from a goroutine that could have continued",
                                                 "sampled-path native validation is off for the scheduled runs (the native scheduler is not controllable); counterexamples are still replayed natively (the listed defects do not depend on the schedule)"],
     },
+    "C11": {
+        "runs": {
+            "quick": [H("HarnessC11a", b(N=5, OPS=1, MODE=m, KINDS=14, HREQ=2, LPAT=63), race=True, policy="rr", no_native=True) for m in (0, 1)] +
+                     [H("HarnessC11a", b(N=3, OPS=1, MODE=m, KINDS=15, HREQ=-1), race=True, policy="rr", no_native=True) for m in (0, 2)],
+            "thorough": [H("HarnessC11a", b(N=5, OPS=1, MODE=m, KINDS=14, HREQ=2, LPAT=p), race=True, policy=pol, no_native=True, sample_every=1000) for m in (0, 1) for p in (63, 57, 75) for pol in ("rr", "first", "last")] +
+                        [H("HarnessC11a", b(N=3, OPS=1, MODE=m, KINDS=15, HREQ=-1), race=True, policy=pol, no_native=True, sample_every=1000) for m in (0, 1, 2) for pol in ("rr", "last")] +
+                        [H("HarnessC11a", b(N=2, OPS=2, MODE=0, KINDS=10, HREQ=-1), race=True, policy="rr", no_native=True, sample_every=1000)] +
+                        [H("HarnessC11a", b(N=3, OPS=1, MODE=0, KINDS=14, HREQ=-1, LPAT=9), race=True, sched=True, preempt=1, no_native=True, sample_every=5000)],
+        },
+        "extra_labels": ["data-race"],
+        "must_reach": ["C11.g1.behaves-as-if-alone", "C11.g2.behaves-as-if-alone", "C11.g1.op-result"],
+        "bounds_statement": "two goroutines, each owning one tree (both loaded from one persisted root through one shared cache; a loaded tree and its clone; an in-memory tree and its clone) over a mutex-protected store and cache; base tree of N ascending entries (height 2 at N=5 for the listed layer patterns); OPS symbolic operations each (Get/Insert/Delete/MakeRoot) then a full Iter; every heap cell access is checked by a vector-clock happens-before detector; per-goroutine results compared with a sequential model",
+        "outside": ["more than two goroutines or more than OPS operations each", "races inside the real ARC cache or the Go runtime", "interleavings are those of the listed deterministic scheduling policies (round-robin / run-to-block) plus context-bounded exploration where stated: a race is reported when two conflicting accesses are unordered by happens-before in an explored execution"],
+        "assumptions": COMMON_ASSUMPTIONS + ["race = two accesses to one heap cell (struct field, slice element, variable), at least one a write, by different goroutines, unordered by the happens-before relation built from go statements, channel operations, Mutex, WaitGroup and Once (vector clocks)",
+                                                "race findings are confirmed natively with `go test -race` on the same harness and inputs when reported"],
+    },
 }
